@@ -315,7 +315,7 @@ def script_for(words, ifs, args, nonce):
 def run_script(which, script, cwd):
     cmd = lib.shell_cmd(which, script)
     try:
-        p = subprocess.run(cmd, cwd=cwd, env=dict(lib.BASE_ENV), stdin=subprocess.DEVNULL, stdout=subprocess.PIPE,
+        p = lib.sp_run(cmd, cwd=cwd, env=dict(lib.BASE_ENV), stdin=subprocess.DEVNULL, stdout=subprocess.PIPE,
                            stderr=subprocess.PIPE, timeout=120)
         return p.stdout
     except subprocess.TimeoutExpired:
